@@ -79,32 +79,7 @@ func expandGuard(g Guard, depth int) []Guard {
 			// an edge whose incoming value is known — a constant, or the very value its own branch
 			// condition settles — and differs from the φ's known value was not taken; what holds on all
 			// the remaining edges holds here
-			var sets [][]Guard
-			for i, e := range c.Edges {
-				pred := c.Block().Preds[i]
-				conds := rawEdgeConds(pred, c.Block())
-				known, val := false, false
-				if k, isK := e.(*ssa.Const); isK && k.Value != nil {
-					known, val = true, k.Value.String() == "true"
-				} else {
-					for _, eg := range conds {
-						if eg.Cond == e {
-							known, val = true, eg.Val
-						}
-						if u, isU := eg.Cond.(*ssa.UnOp); isU && u.Op.String() == "!" && u.X == e {
-							known, val = true, !eg.Val
-						}
-					}
-				}
-				if known && val != g.Val {
-					continue
-				}
-				fs := append([]Guard{}, conds...)
-				if !known {
-					fs = append(fs, expandGuard(Guard{e, g.Val, g.At}, depth+1)...)
-				}
-				sets = append(sets, fs)
-			}
+			sets := phiEdgeFacts(c, g, depth)
 			if len(sets) > 0 && len(sets) < len(c.Edges) {
 				for _, g0 := range sets[0] {
 					common := true
@@ -258,4 +233,150 @@ func rawEdgeConds(from, to *ssa.BasicBlock) []Guard {
 		}
 	}
 	return out
+}
+
+// guardAlternatives: the guard facts of b as a disjunction. A block entered over several edges (the body of
+// `if A || B`, a shared case of a switch) has no dominating test of its own; what holds there is what holds
+// on one of its incoming edges. Each alternative is the fact list of one edge; a property of the facts at b
+// holds if it holds in every alternative.
+func guardAlternatives(b *ssa.BasicBlock) [][]Guard {
+	if len(b.Preds) <= 1 {
+		base := guardsAt(b)
+		// a test of a short-circuit value (`if A || B` built as a φ of booleans): one alternative per way
+		// the value can have come about
+		for _, g := range base {
+			phi, isPhi := g.Cond.(*ssa.Phi)
+			if !isPhi {
+				continue
+			}
+			sets := phiEdgeFacts(phi, g, 0)
+			if len(sets) < 2 || len(sets) > 6 {
+				continue
+			}
+			var out [][]Guard
+			for _, fs := range sets {
+				alt := append([]Guard{}, base...)
+				for _, f := range fs {
+					alt = append(alt, expandGuard(f, 1)...)
+				}
+				out = append(out, alt)
+			}
+			return out
+		}
+		return [][]Guard{base}
+	}
+	var out [][]Guard
+	for _, p := range b.Preds {
+		if p == b {
+			continue
+		}
+		out = append(out, edgeGuards(p, b))
+	}
+	if len(out) == 0 {
+		return [][]Guard{guardsAt(b)}
+	}
+	return out
+}
+
+// phiEdgeFacts: for a boolean φ known to have the value g.Val, the fact sets of the incoming edges over
+// which that value can have arrived (edge conditions plus what the incoming value itself tells).
+func phiEdgeFacts(c *ssa.Phi, g Guard, depth int) [][]Guard {
+	var sets [][]Guard
+	for i, e := range c.Edges {
+		pred := c.Block().Preds[i]
+		conds := rawEdgeConds(pred, c.Block())
+		known, val := false, false
+		if k, isK := e.(*ssa.Const); isK && k.Value != nil {
+			known, val = true, k.Value.String() == "true"
+		} else {
+			for _, eg := range conds {
+				if eg.Cond == e {
+					known, val = true, eg.Val
+				}
+				if u, isU := eg.Cond.(*ssa.UnOp); isU && u.Op.String() == "!" && u.X == e {
+					known, val = true, !eg.Val
+				}
+			}
+		}
+		if known && val != g.Val {
+			continue
+		}
+		fs := append([]Guard{}, conds...)
+		if !known {
+			fs = append(fs, expandGuard(Guard{e, g.Val, g.At}, depth+1)...)
+		}
+		sets = append(sets, fs)
+	}
+	return sets
+}
+
+// sameCond: two branch conditions are the same test — the same value, or (go/ssa does no CSE) two binary
+// operations with the same operator on the same values or equal constants.
+func sameCond(a, b ssa.Value) bool {
+	if a == b {
+		return true
+	}
+	x, ok1 := a.(*ssa.BinOp)
+	y, ok2 := b.(*ssa.BinOp)
+	if !ok1 || !ok2 || x.Op != y.Op {
+		return false
+	}
+	same := func(p, q ssa.Value) bool {
+		if p == q {
+			return true
+		}
+		k1, c1 := p.(*ssa.Const)
+		k2, c2 := q.(*ssa.Const)
+		return c1 && c2 && k1.Value != nil && k2.Value != nil && k1.Value.String() == k2.Value.String() && k1.Type().String() == k2.Type().String()
+	}
+	return same(x.X, y.X) && same(x.Y, y.Y)
+}
+
+// feasibleAlternatives drops the alternatives that contain a test together with its negation.
+func feasibleAlternatives(alts [][]Guard) [][]Guard {
+	var out [][]Guard
+	for _, alt := range alts {
+		ok := true
+		for i := 0; i < len(alt) && ok; i++ {
+			for j := i + 1; j < len(alt); j++ {
+				if alt[i].Val != alt[j].Val && sameCond(alt[i].Cond, alt[j].Cond) {
+					ok = false
+					break
+				}
+			}
+		}
+		if ok {
+			out = append(out, alt)
+		}
+	}
+	return out
+}
+
+// guardAlternativesDeep: as guardAlternatives, but every short-circuit value among the dominating tests is
+// split (the product of the ways each can have come about, capped).
+func guardAlternativesDeep(b *ssa.BasicBlock) [][]Guard {
+	base := guardsAt(b)
+	alts := [][]Guard{base}
+	for _, g := range base {
+		phi, isPhi := g.Cond.(*ssa.Phi)
+		if !isPhi {
+			continue
+		}
+		sets := phiEdgeFacts(phi, g, 0)
+		if len(sets) < 2 || len(sets)*len(alts) > 16 {
+			continue
+		}
+		var next [][]Guard
+		for _, alt := range alts {
+			for _, fs := range sets {
+				na := append([]Guard{}, alt...)
+				for _, f := range fs {
+					na = append(na, expandGuard(f, 1)...)
+				}
+				next = append(next, na)
+			}
+		}
+		alts = next
+	}
+	return alts
 }
